@@ -334,9 +334,10 @@ class SsbGraphMinimizer:
 
     def build_and_group_switch_cases(self) -> None:
         logger.debug("Building switches...")
+        # The switch IDs are unique for the entire script: the writer derives label names from them and labels are global.
+        current_switch_id = -1
         for i, g in enumerate(self._graphs):
             vs_to_delete: set[Vertex | int] = set()
-            current_switch_id = -1
             for v in g.vs:
                 if v["op"].op_code.name in OPS_SWITCH_CASE_MAP.keys() and v not in vs_to_delete:
                     current_switch_id += 1
